@@ -215,7 +215,7 @@ inline std::vector<long long> dvals(Rng& rng, long long lo, long long hi, int nr
     auto add = [&](long long x) {
         if (x >= lo && x <= hi) push_unique(v, x);
     };
-    for (long long x : {0LL, 1LL, 2LL, 3LL, 4LL, 6LL, 7LL, hi, hi - 1, hi - 2, hi / 2, hi / 2 + 1, hi / 3}) {
+    for (long long x : {0LL, 1LL, 2LL, 3LL, 5LL, hi, hi - 1, hi / 2, hi / 2 + 1, hi / 3}) {
         add(x);
         add(-x);
     }
@@ -244,8 +244,8 @@ void nst(Rng& rng, char const* kind, int dl, bool sl, int dr, bool sr)
     long long llo, lhi, rlo, rhi;
     range(dl, sl, llo, lhi);
     range(dr, sr, rlo, rhi);
-    auto lv = dvals(rng, llo, lhi, 6 * scale_from_env());
-    auto rv = dvals(rng, rlo, rhi, 5 * scale_from_env());
+    auto lv = dvals(rng, llo, lhi, 4 * scale_from_env());
+    auto rv = dvals(rng, rlo, rhi, 3 * scale_from_env());
     // tie and near-tie dividends
     std::vector<long long> extra;
     for (std::size_t k = 0; k < rv.size(); k += 3) {
